@@ -76,6 +76,7 @@ EXC = {
     "GeneratorExit": GeneratorExit,
     "CustomBase": CustomBase,
     "InjectedFault": InjectedFault,
+    "KeyError": KeyError,
 }
 HOWS = ["fresh", "module", "premade", "decorated", "exitstack", "manual"]
 
@@ -492,8 +493,25 @@ class ThreadProg:
                 slot = None
                 cm = self.make_cm(spec, how)
         except (TypeError, AttributeError, KeyError, NotImplementedError):
+            if spec.get("RN") is not None and spec["RN"] not in RN_CODE:
+                self.stat("invalid_request_rejected_at_creation")
+                self.fault("rejected_request_inside_contexts" if self.depth else "rejected_request_at_top_level")
+                raise  # as in user code: the error propagates through the enclosing bodies
             self.stat("api_unsupported")
             self.block(body)
+            return
+        if spec.get("RN") is not None and spec["RN"] not in RN_CODE:
+            # accepted at creation: then entering must fail without touching anything, or keep the promise
+            self.stat("invalid_request_accepted_at_creation")
+            before0 = obs.read()
+            try:
+                with cm:
+                    pass
+            except BaseException:
+                self.fault("rejected_request_inside_contexts" if self.depth else "rejected_request_at_top_level")
+                if not self.same(obs.read(), before0):
+                    self.violation("enter-bits", "rejected-request-changed-register", before=hex(before0), after=hex(obs.read()))
+                raise
             return
         before = obs.read()
         if created_elsewhere and made_under != (before & ~STATUS):
@@ -595,6 +613,10 @@ class ThreadProg:
 
 
 def gen_spec(rng):
+    if rng.random() < 0.03:
+        # a request the package must reject (unknown rounding-mode name): wherever it is rejected -- at creation on the
+        # unchanged tree -- nothing may be left behind, and the enclosing contexts must still restore
+        return {"RN": "to-nearest", "FZ": True}
     spec = {}
     while not spec:
         if rng.random() < 0.55:
